@@ -105,6 +105,7 @@ type gen struct {
 	rep    *common.Report
 	env    *credgen.Env
 	envs   []*credgen.Env // document loaders by index; envs[0] == env
+	views  map[string]credgen.View
 	recs   []*rec
 	alt    []merklize.Hasher
 }
@@ -807,6 +808,52 @@ func (g *gen) writeShards() error {
 			rs = append(rs, r)
 		}
 	}
+	// the credential views are computed in parallel up front
+	{
+		type job struct {
+			key   string
+			ld    int
+			js    []byte
+			paths []string
+		}
+		seen := map[string]bool{}
+		var jobs []job
+		addJob := func(ld int, js []byte, paths []string) {
+			k := fmt.Sprintf("%d|%s", ld, js)
+			if js != nil && !seen[k] {
+				seen[k] = true
+				jobs = append(jobs, job{k, ld, js, paths})
+			}
+		}
+		for _, r := range rs {
+			if r.in.Kind == "complete" || r.in.VP != nil {
+				addJob(r.in.Loader, r.in.Cred, r.in.Paths)
+			}
+			if r.res.verified {
+				addJob(r.in.Loader, r.res.vcJSON, r.in.Paths)
+			}
+		}
+		g.views = map[string]credgen.View{}
+		var wg sync.WaitGroup
+		sem := make(chan struct{}, runtime.NumCPU())
+		for _, j := range jobs {
+			wg.Add(1)
+			sem <- struct{}{}
+			go func(j job) {
+				defer wg.Done()
+				defer func() { <-sem }()
+				vc, err := parseVC(j.js)
+				if err != nil {
+					return
+				}
+				v := g.ownView(j.ld, vc, j.paths)
+				g.mu.Lock()
+				g.views[j.key] = v
+				g.mu.Unlock()
+			}(j)
+		}
+		wg.Wait()
+	}
 	for s := 0; s*shardSize < len(rs); s++ {
 		lo, hi := s*shardSize, (s+1)*shardSize
 		if hi > len(rs) {
@@ -828,7 +875,10 @@ func (g *gen) writeShards() error {
 			if err != nil {
 				return 0, err
 			}
-			v := g.ownView(ld, vc, paths)
+			v, ok := g.views[ckey]
+			if !ok {
+				v = g.ownView(ld, vc, paths)
+			}
 			or.Note(v)
 			// term lists are shared between the credentials of one @context array (per loader)
 			ck := fmt.Sprintf("%d|%v|%s", ld, v.CtxOK, strings.Join(vc.Context, " "))
